@@ -1,4 +1,6 @@
 pub mod c01;
+pub mod c15;
+pub mod c16;
 pub mod c18;
 pub mod c19;
 pub mod farm_hist;
@@ -35,6 +37,8 @@ fn run_inner(prop: &str, tier: Tier, seed: u64) -> Option<PropReport> {
         "C03" => poolprops::check_c03(tier, seed),
         "C04" => poolprops::check_c04(tier, seed),
         "C12" => poolprops::check_c12(tier, seed),
+        "C15" => c15::check(tier, seed),
+        "C16" => c16::check(tier, seed),
         "C18" => c18::check(tier, seed),
         "C19" => c19::check(tier, seed),
         "SURVEY19" => c19::check_survey(tier, seed),
@@ -56,6 +60,8 @@ fn run_inner(prop: &str, tier: Tier, seed: u64) -> Option<PropReport> {
 fn replay_engine(engine: &str, case: &Value) -> Option<Result<Result<(), String>, String>> {
     Some(match engine {
         "epoch-arith" => replay_case(&c18::C18, case),
+        "auth-matrix" => replay_case(&c15::Matrix, case),
+        "pool-creation-validity" => replay_case(&c16::Creation, case),
         "stableswap-quote-vs-exact" => replay_case(&c19::C19Swap { survey: false }, case),
         "stableswap-D-vs-exact" => replay_case(&c19::C19D { survey: false }, case),
         "pool-history-backing" => replay_case(&c01::engine(), case),
